@@ -46,3 +46,16 @@ impl<'a> core::ops::Add<Vector{D}> for &'a Point{D} { type Output = Point{D};
 // scaling composes (vector-space axiom):  (w * a) * b == w * (a * b)
 pub broadcast axiom fn ax_scale_scale(w: Vector{D}, a: real, b: real)
     ensures #[trigger] v_scale(v_scale(w, a), b) == v_scale(w, a * b);
+
+// nalgebra vector methods a reasonable rewrite of the distance tests may use (ASSUMED contracts, real-number meaning):
+//   norm_squared() == |v|^2 ;  amax() == the largest absolute coordinate, hence 0 <= amax <= |v| and |v|^2 <= D * amax^2.
+// With these a `norm_squared()`-for-`norm()` or an `amax()`-for-`norm()` change goes THROUGH the verifier and fails the
+// clause that depends on the Euclidean distance, instead of leaving the unit undecided.
+impl Vector{D} {
+    #[verifier::external_body]
+    pub fn norm_squared(&self) -> (r: f64) ensures rv(r) == v_norm(*self) * v_norm(*self) { unimplemented!() }
+    #[verifier::external_body]
+    pub fn amax(&self) -> (r: f64)
+        ensures 0real <= rv(r) <= v_norm(*self), v_norm(*self) * v_norm(*self) <= {D}real * rv(r) * rv(r)
+    { unimplemented!() }
+}
